@@ -43,8 +43,43 @@ def field_values(r, length, old):
     return v & mx
 
 
-def mutate(r, data, fields):
+def mutate_loop(r, data, fields, img):
+    """two coordinated edits: a directory entry is made to refer to the directory that contains it (or to the root), and its type
+    word is rewritten independently - the reference and the type word are different on-disk fields, readers may trust either"""
+    nodes = {n.ino: n for n in img.inodes_by_ref.values()}
+    byname = {f[0]: f for f in fields}
+    cands = []
+    for name, off, ln in fields:
+        m = re.match(r"dir\[(\d+)\]\.ent(\d+)\.offset$", name)
+        if m and int(m.group(1)) in nodes and ("dir[%s].hdr1.start" % m.group(1)) not in byname and ("dir[%s].hdr0.start" % m.group(1)) in byname:
+            cands.append((int(m.group(1)), int(m.group(2))))
+    if not cands:
+        return None, None
+    ino, k = r.choice(cands)
+    owner = nodes[ino]
+    root = img.inodes_by_ref.get(img.sb["root"], owner)
+    target = r.choice([owner, owner, root])
+    b = bytearray(data)
+    desc = []
+    _, ho, hl = byname["dir[%d].hdr0.start" % ino]
+    b[ho:ho + 4] = (target.ref >> 16).to_bytes(4, "little")
+    _, eo, el = byname["dir[%d].ent%d.offset" % (ino, k)]
+    b[eo:eo + 2] = (target.ref & 0xFFFF).to_bytes(2, "little")
+    desc.append("dir[%d].ent%d -> inode reference %#x (%s)" % (ino, k, target.ref, "the directory itself" if target is owner else "the root"))
+    _, to, tl = byname["dir[%d].ent%d.type" % (ino, k)]
+    newt = r.choice([1, 2, 2, 3, 7, 8, 9, 0])
+    old = int.from_bytes(b[to:to + 2], "little")
+    b[to:to + 2] = newt.to_bytes(2, "little")
+    desc.append("dir[%d].ent%d.type %d -> %d" % (ino, k, old, newt))
+    return bytes(b), desc
+
+
+def mutate(r, data, fields, img=None):
     """returns (bytes, description list, persistent byte faults [(off, value)])"""
+    if img is not None and r.random() < 0.08:
+        bad, desc = mutate_loop(r, data, fields, img)
+        if bad is not None:
+            return bad, desc
     b = bytearray(data)
     desc = []
     kind = r.random()
@@ -161,7 +196,7 @@ def work(a):
                     if bad is None:
                         break
                 else:
-                    bad, desc = mutate(mr, data, fields)
+                    bad, desc = mutate(mr, data, fields, img)
                 transient = not sweep and mr.random() < 0.15 and len(bad) == len(data)
                 plan = "seed 1\nsched rr\n"
                 if transient:
